@@ -165,6 +165,8 @@ pub struct World {
     pub scheduling: bool,
     /// virtual CLOCK_REALTIME in ns (0 = use the real clock)
     pub vclock: Mutex<i128>,
+    /// emulate a filesystem without hard links: every link/linkat under the roots fails with this errno
+    pub deny_link: i32,
 }
 
 #[derive(Default)]
@@ -176,6 +178,7 @@ pub struct WorldCfg {
     pub emu: Option<Emu>,
     pub participants: usize,
     pub vclock: i128,
+    pub deny_link: i32,
 }
 
 impl World {
@@ -199,6 +202,7 @@ impl World {
             cv: Condvar::new(),
             scheduling: cfg.participants > 0,
             vclock: Mutex::new(cfg.vclock),
+            deny_link: cfg.deny_link,
         })
     }
 
@@ -1490,6 +1494,11 @@ pub unsafe extern "C" fn linkat(da: c_int, a: *const c_char, db: c_int, b: *cons
             -1
         }
         Outcome::Go(w, d, idx) => {
+            if w.deny_link != 0 {
+                let e = w.deny_link;
+                epilogue(&w, d, idx, -1, e, false, None);
+                return -1;
+            }
             let r = real(da, a, db, b, flags);
             let e = errno();
             epilogue(&w, d, idx, r as i64, e, false, None);
